@@ -146,7 +146,7 @@ VARIANTS = [
     V('c14-dq-after-word', 'C14', 'bad', 'R14.1', K, "    (r'\"(\"\"|\\\\\"|[^\"])*\"', tokens.String.Symbol),\n", ""),
     V('c14-new-prefix-rule', 'C14', 'bad', 'R14.6', K, "    (r'\\?', tokens.Name.Placeholder),", "    (r\"[NE]'[^']*'\", tokens.String.Single),\n    (r'\\?', tokens.Name.Placeholder),"),
     V('c14-no-oracle', 'C14', 'bad', 'R14.3', L, "        self.add_keywords(keywords.KEYWORDS_ORACLE)\n", ""),
-    V('c14-lower', 'C14', 'bad', 'R14.4', L, "        val = value.upper()\n        for kwdict", "        val = value.lower()\n        for kwdict"),
+    V('c14-lower', 'C14', 'bad', 'R14.3', L, "        val = value.upper()\n        for kwdict", "        val = value.lower()\n        for kwdict"),
     V('c14-dollar-ci', 'C14', 'bad', 'R14.1', K, r"[\s\S]*?(?-i:\1)', tokens.Literal)", r"[\s\S]*?\1', tokens.Literal)", 'the defect fixed by eae05f0'),
     V('c14-ok-string-rewrite', 'C14', 'ok', '', K, r'''(r"'(''|\\'|[^'])*'", tokens.String.Single)''', r'''(r"'(?:[^']|''|\\')*'", tokens.String.Single)''', 'different alternative order: same extents? (only if priorities agree)'),
     # ---- C15
